@@ -13,7 +13,6 @@ def check(ctx: Ctx) -> None:
     from .elemtrack import r_spawner_kept
     r_spawner_kept(ctx, "R08.5")
     A.r_check_precedence(ctx, "R08.3")
-    A.r_validate_first(ctx, "R09.1", ("apply", "_map", "start"))
-    A.r_raise_inventory(ctx, "R09.3")
+    A.r_raise_inventory(ctx, "R09.3", classes={"PoolIsClosed"}, guards=set())
     SP.r_unreachable_lock_raise(ctx, "R04.2")
     S.r_handoff(ctx, "R02.1")
